@@ -956,6 +956,8 @@ class Exec:
             return [(st, Builtin("noop"))]
         if isinstance(v, SArr):
             return [(st, self.lib.arr_attr(self, st, v, name))]
+        if isinstance(v, str) and v in _DTYPE_ATTRS and name in _DTYPE_ATTRS[v]:
+            return [(st, _DTYPE_ATTRS[v][name])]          # arr.dtype is modelled by its name
         if isinstance(v, (list, dict, tuple, str)):
             return [(st, BoundLib(v, name))]
         if hasattr(v, "getattr"):
@@ -2365,6 +2367,12 @@ def merge_states_general(ex, a, b):
 
 class PathDead(Exception):
     """The current path cannot continue (an implicit raise was recorded as an obligation)."""
+
+
+_DTYPE_ATTRS = {"float64": {"kind": "f", "str": "<f8", "name": "float64", "itemsize": 8},
+                "int64": {"kind": "i", "str": "<i8", "name": "int64", "itemsize": 8},
+                "bool": {"kind": "b", "str": "|b1", "name": "bool", "itemsize": 1},
+                "object": {"kind": "O", "str": "|O", "name": "object", "itemsize": 8}}
 
 
 class AttrMissing(Exception):
